@@ -147,6 +147,14 @@ func NewUDPPeer(ioc *sonic.IO, network string, addr string) (*UDPPeer, error) {
 			"could not create socket domain=%s err=%v", domain, err)
 	}
 
+	// Every failure below must release the socket.
+	constructed := false
+	defer func() {
+		if !constructed {
+			_ = socket.Close()
+		}
+	}()
+
 	if err := socket.SetNonblocking(true); err != nil {
 		return nil, fmt.Errorf("cannot make socket nonblocking")
 	}
@@ -225,6 +233,7 @@ func NewUDPPeer(ioc *sonic.IO, network string, addr string) (*UDPPeer, error) {
 		}
 	}
 
+	constructed = true
 	return p, nil
 }
 
